@@ -10,3 +10,12 @@ type Entry struct {
 	Name string
 	New  func() sch.Codec
 }
+
+// IfaceEntry is one generated interface: its proxy / dispatcher type and a recording stub that
+// implements its <Name>ServantWithContext interface (written next to the generated code by
+// genreg -stubs; every method hands its arguments, in order, to H).
+type IfaceEntry struct {
+	Name     string // <package>.<Go type name>
+	NewProxy func() interface{}
+	NewStub  func(h func(fn string, args []interface{}, ret interface{}) error) interface{}
+}
